@@ -621,6 +621,12 @@ func c17Ctors(c *Ctx) {
 					}
 				case *ssa.UnOp, *ssa.Slice, *ssa.DebugRef:
 				case ssa.CallInstruction:
+					if isBuiltinCall(u.Common(), "copy") && len(u.Common().Args) == 2 {
+						if s := form(u.Common().Args[1], d+1); s != "" {
+							return s
+						}
+						continue
+					}
 					return "a local variable filled by " + calleeName(u.Common())
 				default:
 					return "a local variable used by " + ref.String()
@@ -650,6 +656,17 @@ func c17Ctors(c *Ctx) {
 					}
 				}
 			case *ssa.Call:
+				if isBuiltinCall(t.Common(), "append") {
+					for _, a := range t.Call.Args {
+						if k, isK := a.(*ssa.Const); isK && k.Value == nil {
+							continue
+						}
+						if s := form(a, d+1); s != "" {
+							return s
+						}
+					}
+					return ""
+				}
 				if sf := t.Call.StaticCallee(); sf != nil {
 					if _, ok := c17CtorHelpers[shortName(sf)]; ok {
 						for _, a := range t.Call.Args {
@@ -670,6 +687,23 @@ func c17Ctors(c *Ctx) {
 					}
 					return "the result of " + shortName(sf)
 				}
+			case *ssa.MakeSlice:
+				// a fresh slice: judged by what is copied into it
+				for _, ref := range *t.Referrers() {
+					if ci, ok := ref.(ssa.CallInstruction); ok {
+						if isBuiltinCall(ci.Common(), "copy") && len(ci.Common().Args) == 2 && ci.Common().Args[0] == ssa.Value(t) {
+							if s := form(ci.Common().Args[1], d+1); s != "" {
+								return s
+							}
+							continue
+						}
+						if isBuiltinCall(ci.Common(), "len") || isBuiltinCall(ci.Common(), "cap") {
+							continue
+						}
+						return "a fresh slice filled by " + calleeName(ci.Common())
+					}
+				}
+				return ""
 			case *ssa.Alloc:
 				// address of a composite literal (pointer-typed values)
 				return formAlloc(t, d+1)
